@@ -269,10 +269,13 @@ def _get_generaldyne_samples(state, modes, shots, detection_covariance):
 
     mean = state.xpxp_mean_vector[indices]
 
+    # NOTE: The outcome density is proportional to
+    # exp(-(r_m - r)^T (sigma + sigma_m)^{-1} (r_m - r)), i.e., it is a normal
+    # distribution with covariance (sigma + sigma_m) / 2.
     cov = (
         state.xpxp_covariance_matrix[np.ix_(indices, indices)]
         + full_detection_covariance
-    )
+    ) / 2
 
     # HACK: We need tol=1e-7 to avoid Numpy warnings at homodyne detection with
     # squeezed detection covariance. Numpy warns
